@@ -62,7 +62,7 @@ def run (cmd : String) (rest : String) : Option String :=
           s!"core={spec.coreTable}:{",".intercalate spec.coreCols};drops={",".intercalate spec.getstateDrops};" ++
           s!"nocopy={",".intercalate spec.copyNoCopy};sound={b (soundB spec)};" ++
           s!"flags={b spec.copyClearsIfStale}{b spec.isStaleRecomputes}{b spec.isStaleSticky}{b spec.clearGuardsLock}" ++
-          s!"{b spec.clearRestamps}{b spec.clearDeletes}{b spec.wrapperChecks};" ++
+          s!"{b spec.clearRestamps}{b spec.clearDeletes}{b spec.wrapperChecks}{b spec.exclPrefix}{b spec.lockFinally};" ++
           s!"excl={"/".intercalate ((spec.clearSites.map (fun c => ",".intercalate c.excl)).eraseDups)}")
   | "run" => do
     let evs ← (words rest).mapM parseEv
